@@ -16,7 +16,7 @@ draw to be nonzero, `(0,1)`: a draw of exactly `0.0` loses the partial item (`eb
 NOT formalised (DESIGN.md §5): "over the sampling randomness each item's inclusion probability is proportional to its
 weight" as a statement about the joint distribution of all draws.  Only the one-step identities are proved (`eb_one_step_pps_*`).
 -/
-import DSProofs.Lemmas.EbppsHist
+import DSProofs.Lemmas.EbppsPps
 namespace DS.Ebpps
 
 /-- the items offered by a stream -/
@@ -163,6 +163,66 @@ theorem eb_merge (v : Variant) (ka kb : Nat) (hka : 1 ≤ ka) (hkb : 1 ≤ kb) (
         max_comm, min_comm] at this
       exact this
     exact ⟨e3, e2, e4, fin _ _ _ _ hcore e2⟩
+
+/-! ## One-step PPS identities (interval lengths of the draw regions)
+
+`incl s x` is the probability that `get_result()` returns `x` given the sample `s`: 1 per full occurrence, `frac c` for the
+partial item (`{u : u < frac c}` has length `frac c`).  One update first down-samples the resident sample by `rho'/rho`
+and then merges the one-item sample of the new item, `theta = rho'·w` (`eb_update_is_downsample_then_merge`). -/
+
+/-- the sample after `update` is `mergeSample (downsample old (rho'/rho)) (replaceContent item (rho'·w))` with
+`rho' = min(1/max(wtMax, w), k/(cumWt + w))`, for every model variant. -/
+theorem eb_update_is_downsample_then_merge (v : Variant) (s : Sketch Rat) (item : Nat) (w : Rat) (d : Draws Rat)
+    (hpos : 0 < s.cumWt) (hw : 0 < w) (hk : 1 ≤ s.k)
+    (rho' : Rat) (hr : rho' = min (1 / max s.wtMax w) ((s.k : Rat) / (s.cumWt + w))) :
+    (absorb v s item w (fun r => r * w) (max s.wtMax w) d).1.sample =
+      (mergeSample v.geDraw (downsample v.geDraw s.sample (rho' / s.rho) d).1 (replaceContent item (rho' * w))
+        (downsample v.geDraw s.sample (rho' / s.rho) d).2).1 ∧
+    (absorb v s item w (fun r => r * w) (max s.wtMax w) d).1.rho = rho' ∧ 0 < rho' * w ∧ rho' * w ≤ 1 := by
+  have hmx : 0 < max s.wtMax w := lt_max_of_lt_right hw
+  have hkq : (0 : Rat) < s.k := by exact_mod_cast hk
+  have hrp : 0 < rho' := by rw [hr]; exact lt_min (div_pos one_pos hmx) (div_pos hkq (by linarith))
+  have hth1 : rho' * w ≤ 1 := by
+    calc rho' * w ≤ 1 / max s.wtMax w * w := by
+          rw [hr]; exact mul_le_mul_of_nonneg_right (min_le_left _ _) (le_of_lt hw)
+      _ = w / max s.wtMax w := by ring
+      _ ≤ 1 := (div_le_one hmx).2 (le_max_right _ _)
+  have hcond : (Num.lt (zero : Rat) s.cumWt) = true := by simp [hpos]
+  refine ⟨?_, ?_, mul_pos hrp hw, hth1⟩
+  · unfold absorb
+    simp only [hcond, if_true, rat_newRho, mergeSampleV_eq_rat, ← hr]
+    rw [replaceContentV_eq_rat _ _ hth1]
+  · unfold absorb
+    simp only [rat_newRho, ← hr]
+
+/-- merge half of the one-step PPS property: there is a threshold `t ∈ [0,1]` such that every draw below `t` produces the
+sample `A` and every draw above `t` produces `B` (regions of lengths `t` and `1 - t`), and for EVERY item `x`
+`t·incl A x + (1-t)·incl B x = incl s x + (theta if x is the new item else 0)`: the new item is included with probability
+`theta = rho'·w`, and the merge leaves every resident item's inclusion probability unchanged. -/
+theorem eb_one_step_pps_new_item (ge : Bool) (P : Nat → Prop) (s : Sample Rat) (hs : SInv P s) (item : Nat) (hP : P item)
+    (theta : Rat) (h0 : 0 < theta) (h1 : theta ≤ 1) :
+    ∃ (t : Rat) (A B : Sample Rat), 0 ≤ t ∧ t ≤ 1 ∧
+      (∀ d : Draws Rat, d.unit.1 < t → (mergeSample ge s (replaceContent item theta) d).1 = A) ∧
+      (∀ d : Draws Rat, t < d.unit.1 → (mergeSample ge s (replaceContent item theta) d).1 = B) ∧
+      ∀ x, t * incl A x + (1 - t) * incl B x = incl s x + (if x = item then theta else 0) := by
+  obtain ⟨t, A, B, t0, t1, hA, hB, hx⟩ := merge_pps (ge := ge) hs (replaceContent_spec (P := P) hP h0 h1).1
+  exact ⟨t, A, B, t0, t1, hA, hB, fun x => by rw [hx x, incl_replaceContent item h0 h1 x]⟩
+
+/-- the same identity for the merge of ANY two well-structured samples (used when sketches are merged): expected inclusion
+after = inclusion in the first + inclusion in the second. -/
+theorem eb_one_step_pps_merge (ge : Bool) (P : Nat → Prop) (s o : Sample Rat) (hs : SInv P s) (ho : SInv P o) :
+    ∃ (t : Rat) (A B : Sample Rat), 0 ≤ t ∧ t ≤ 1 ∧
+      (∀ d : Draws Rat, d.unit.1 < t → (mergeSample ge s o d).1 = A) ∧
+      (∀ d : Draws Rat, t < d.unit.1 → (mergeSample ge s o d).1 = B) ∧
+      ∀ x, t * incl A x + (1 - t) * incl B x = incl s x + incl o x :=
+  merge_pps hs ho
+
+example : SInv (fun _ => True) (⟨5/2, [1, 2], some 3⟩ : Sample Rat) := by
+  refine ⟨by norm_num, ?_, ?_, fun _ _ => trivial, fun _ _ => trivial⟩
+  · have : (5/2 : Rat).floor = 2 := by decide +kernel
+    simp [this]
+  · have : (5/2 : Rat).floor = 2 := by decide +kernel
+    simp [this]; norm_num
 
 /-! ## Arbitrary histories (merge trees) -/
 
